@@ -165,6 +165,18 @@ def build_harness(timeout=1800):
     return os.path.join(CACHE, "target", "debug", "h1"), time.time() - t0
 
 
+def build_binary(timeout=1800):
+    """build the real server / CLI binary from /repo's CURRENT working tree (guard OFF)
+    into /verif/.cache/target_bin (nothing is written under /repo)."""
+    tdir = os.path.join(CACHE, "target_bin")
+    rc, out = sh(["cargo", "build", "--offline", "--bin", "pytest-language-server",
+                  "--manifest-path", os.path.join(REPO, "Cargo.toml"), "--target-dir", tdir],
+                 timeout=timeout, env={"RUSTFLAGS": ""})
+    if rc != 0:
+        raise TieBroken("binary-build", out[-3000:])
+    return os.path.join(tdir, "debug", "pytest-language-server")
+
+
 def run_h1(h1, cases, name, timeout=1200):
     """cases: [{"id":..,"ops":[..]}] -> {id: obs list}"""
     d = os.path.join(CACHE, "cases")
